@@ -91,6 +91,10 @@ def run(ck):
                  "'_' need _reserved, and no _reserved creation site can yield an '_ext_' name",
                  'M0', 6)
 
+    with ck.section('R14.1c'):
+        from rules.shared import simtask_implies_error_recorded
+        simtask_implies_error_recorded(ck, R1)
+
     with ck.section('R14.1'):
         # ------------------------------------------------------------------ R14.1
         send = ext.methods.get('send')
@@ -390,28 +394,8 @@ def run(ck):
 
     with ck.section('R14.3'):
         # ------------------------------------------------------------------ R14.3
-        es = prog.func('block:Event.send')
-        ge = ck.cfg(es.fid, 'M0')
-        sw_nodes = nodes_where(ge, lambda n: n.kind == 'stmt' and any(
-            norm(t.value) == 'data' and is_const(t.slice, 'source') for t, k, s in subscript_writes(n.ast)))
-        ok = len(sw_nodes) == 1 and isinstance(sw_nodes[0].ast, ast.Assign) and \
-            norm(sw_nodes[0].ast.value) == f"{(es.node.args.posonlyargs + es.node.args.args)[1].arg}.name"
-        ck.ob(R3, f"{es.fid} :: source overwritten", ok,
-              "data['source'] = <sender>.name (plain assignment: an inner 'source' item cannot survive)"
-              if ok else "Event.send does not unconditionally assign data['source'] = source.name",
-              es, sw_nodes[0].ast if sw_nodes else es.node)
-        if sw_nodes:
-            s0 = sw_nodes[0]
-            loops = nodes_where(ge, lambda n: n.kind == 'for' and 'self._filters' in norm(n.ast.iter),
-                                kinds=('for',))
-            dests = nodes_calling(ge, 'event')
-            cond = [gt for gt in ge.guard_texts(s0)]
-            # guards that only lead to raise on the other side are fine; require that the node
-            # dominates the filter loop and the delivery
-            ok = bool(loops) and bool(dests) and all(ge.dominates(s0, x) for x in loops + dests)
-            ck.ob(R3, f"{es.fid} :: before filters and delivery", ok,
-                  "the assignment dominates the filter loop and the delivery" if ok else
-                  "a filter or the destination can see the event before 'source' is set", es, s0.ast)
+        from rules.shared import event_send_rules
+        event_send_rules(ck, R3, ('source',), lambda: _send_source_shape(ck, prog, R3))
         binit = prog.func('block:Block.__init__')
         gb = ck.cfg(binit.fid, 'M0')
         res_ok = any(isinstance(n.ast, ast.Raise) and gb.has_guard(n, "name.startswith('_')", True)
@@ -498,3 +482,29 @@ def _all_literals_ok(v) -> bool:
     if isinstance(v, ast.IfExp):
         return _all_literals_ok(v.body) and _all_literals_ok(v.orelse)
     return False
+
+
+def _send_source_shape(ck, prog, R3):
+    """Shape form of the Event.send part of R14.3 for the layout of the pinned tree."""
+    es = prog.func('block:Event.send')
+    ge = ck.cfg(es.fid, 'M0')
+    sw_nodes = nodes_where(ge, lambda n: n.kind == 'stmt' and any(
+        norm(t.value) == 'data' and is_const(t.slice, 'source') for t, k, s in subscript_writes(n.ast)))
+    ok = len(sw_nodes) == 1 and isinstance(sw_nodes[0].ast, ast.Assign) and \
+        norm(sw_nodes[0].ast.value) == f"{(es.node.args.posonlyargs + es.node.args.args)[1].arg}.name"
+    ck.ob(R3, f"{es.fid} :: source overwritten", ok,
+          "data['source'] = <sender>.name (plain assignment: an inner 'source' item cannot survive)"
+          if ok else "Event.send does not unconditionally assign data['source'] = source.name",
+          es, sw_nodes[0].ast if sw_nodes else es.node)
+    if sw_nodes:
+        s0 = sw_nodes[0]
+        loops = nodes_where(ge, lambda n: n.kind == 'for' and 'self._filters' in norm(n.ast.iter),
+                            kinds=('for',))
+        dests = nodes_calling(ge, 'event')
+        cond = [gt for gt in ge.guard_texts(s0)]
+        # guards that only lead to raise on the other side are fine; require that the node
+        # dominates the filter loop and the delivery
+        ok = bool(loops) and bool(dests) and all(ge.dominates(s0, x) for x in loops + dests)
+        ck.ob(R3, f"{es.fid} :: before filters and delivery", ok,
+              "the assignment dominates the filter loop and the delivery" if ok else
+              "a filter or the destination can see the event before 'source' is set", es, s0.ast)
